@@ -134,6 +134,9 @@ def alloc_kind(v, lst, coord):
     raise Untranslatable(f'dtype expression {d}')
 
 
+import gen_c07
+
+
 class Seq:
     """python statements of a `*_seq` sweep -> one Lean term of type `Option (List K)`.
 
@@ -184,7 +187,7 @@ class Seq:
     # ---- one simple (non-control) statement -> (lets, tr, ty)
     def simple(self, s, tr, ty):
         src = ast.unparse(s)
-        if src in ('ns = list(ns)', 'x = np.asarray(x)'):      # container / scalar normalisation: point-wise identity
+        if src == 'ns = list(ns)' or gen_c07.is_identity_prologue(s):      # container / scalar / dtype normalisation: point-wise identity
             return [], tr, ty
         if isinstance(s, ast.Assign) and len(s.targets) == 1:
             t, v = s.targets[0], s.value
@@ -785,11 +788,87 @@ def generate(repo):
         return verdict
     g.fact('seqRoutinesHaveNoDtypeBlindCache', 'prysm/polynomials/*.py', no_dtype_blind_cache)
 
+    # ---- no routine of the polynomial modules writes into one of its arguments (orders, coordinates, parameters)
+    def arguments_untouched():
+        """True iff no function of prysm/polynomials/*.py applies an in-place operation -- augmented assignment, item / slice / attribute
+        store, a mutating method (sort, fill, append, ...), a ufunc `out=` -- to one of its parameters or to a name that may alias one
+        (`y = p`, `y = np.asarray(p)`, a view `p[...]`, `p.reshape(..)`, `p.T`, ...).  Parameters documented as output buffers
+        (`alphas`, `out`) are exempt.  An augmented assignment to a bare name is flagged only when the name may hold an array / list
+        (it has been bound through np.asarray-like calls, or is indexed / iterated / passed to len() in the function): `n += 1` on an
+        integer parameter rebinds a local name and touches nothing the caller owns."""
+        import glob
+        import os
+        ALIAS_CALLS = {'np.asarray', 'np.asanyarray', 'np.atleast_1d', 'np.atleast_2d', 'np.ascontiguousarray', 'np.ravel', 'np.squeeze', 'np.reshape',
+                       'np.transpose', 'np.broadcast_to', 'truenp.asarray', 'truenp.asanyarray'}
+        VIEWS = {'reshape', 'ravel', 'view', 'squeeze', 'transpose', 'swapaxes'}
+        MUT = {'sort', 'fill', 'resize', 'put', 'itemset', 'partition', 'append', 'extend', 'pop', 'remove', 'insert', 'clear', 'reverse', 'update',
+               'setdefault', 'setflags', 'byteswap', 'popitem', 'add', 'discard'}
+        ok = True
+        for path in sorted(glob.glob(os.path.join(repo, 'prysm', 'polynomials', '*.py'))):
+            mod = ast.parse(open(path).read())
+            for fn in [f for f in ast.walk(mod) if isinstance(f, ast.FunctionDef)]:
+                params = {a.arg for a in fn.args.args + fn.args.kwonlyargs + fn.args.posonlyargs} - {'alphas', 'out'}
+                alias = set(params)
+                container = set()        # names that may hold an array / sequence
+                for _ in range(5):
+                    for n in ast.walk(fn):
+                        if isinstance(n, ast.Assign) and len(n.targets) == 1 and isinstance(n.targets[0], ast.Name):
+                            v, src, arr = n.value, None, False
+                            if isinstance(v, ast.Name):
+                                src = v.id
+                            elif isinstance(v, ast.Call) and ast.unparse(v.func) in ALIAS_CALLS and v.args and isinstance(v.args[0], ast.Name):
+                                src, arr = v.args[0].id, True
+                            elif isinstance(v, ast.Call) and isinstance(v.func, ast.Attribute) and v.func.attr in VIEWS and isinstance(v.func.value, ast.Name):
+                                src, arr = v.func.value.id, True
+                            elif isinstance(v, ast.Subscript) and isinstance(v.value, ast.Name) and isinstance(v.slice, (ast.Slice, ast.Tuple)):
+                                src, arr = v.value.id, True
+                            elif isinstance(v, ast.Attribute) and v.attr in ('T', 'real', 'imag', 'flat') and isinstance(v.value, ast.Name):
+                                src, arr = v.value.id, True
+                            if src in alias:
+                                alias.add(n.targets[0].id)
+                                if arr or src in container:
+                                    container.add(n.targets[0].id)
+                for n in ast.walk(fn):
+                    if isinstance(n, ast.Subscript) and isinstance(n.value, ast.Name):
+                        container.add(n.value.id)
+                    if isinstance(n, (ast.For, ast.comprehension)) and isinstance(n.iter, ast.Name):
+                        container.add(n.iter.id)
+                    if isinstance(n, ast.Call) and ast.unparse(n.func) == 'len' and n.args and isinstance(n.args[0], ast.Name):
+                        container.add(n.args[0].id)
+                    if isinstance(n, ast.Attribute) and n.attr in ('shape', 'ndim', 'dtype', 'size') and isinstance(n.value, ast.Name):
+                        container.add(n.value.id)
+
+                def root(e):
+                    while isinstance(e, (ast.Subscript, ast.Attribute)):
+                        e = e.value
+                    return e.id if isinstance(e, ast.Name) else None
+                for n in ast.walk(fn):
+                    if isinstance(n, ast.AugAssign):
+                        r = root(n.target)
+                        if r in alias and (not isinstance(n.target, ast.Name) or r in container):
+                            ok = False
+                    if isinstance(n, ast.Assign):
+                        for t in n.targets:
+                            for el in (t.elts if isinstance(t, (ast.Tuple, ast.List)) else [t]):
+                                if isinstance(el, (ast.Subscript, ast.Attribute)) and root(el) in alias:
+                                    ok = False
+                    if isinstance(n, ast.Call):
+                        if isinstance(n.func, ast.Attribute) and n.func.attr in MUT and root(n.func.value) in alias:
+                            ok = False
+                        for kw in n.keywords:
+                            if kw.arg == 'out' and any(isinstance(q, ast.Name) and q.id in alias for q in ast.walk(kw.value)):
+                                ok = False
+                    if isinstance(n, ast.Delete) and any(isinstance(t, ast.Subscript) and root(t) in alias for t in n.targets):
+                        ok = False
+        return ok
+    g.fact('polynomialRoutinesLeaveArgumentsUntouched', 'prysm/polynomials/*.py', arguments_untouched)
+
     # ---- the `*_seq` sweeps, statement by statement
     jac, _ = load(repo, 'prysm/polynomials/jacobi.py')
     her, _ = load(repo, 'prysm/polynomials/hermite.py')
     lag, _ = load(repo, 'prysm/polynomials/laguerre.py')
     dic, _ = load(repo, 'prysm/polynomials/dickson.py')
+    qp8, _ = load(repo, 'prysm/polynomials/qpoly.py')
     for (mod, rel, py, lean, ks, tf, xb, rec) in [
             (jac, 'jacobi.py', 'jacobi_seq', 'jacobiSeq', ['alpha', 'beta', 'x'], {'recurrence_abc': ('Generated.C07.abc', 3)},
              '[DecidableEq K] ', f'{M}.jacobiRec alpha beta x'),
@@ -799,9 +878,13 @@ def generate(repo):
             (her, 'hermite.py', 'hermite_H_der_seq', 'hermiteHDerSeq', ['x'], None, '', f'{M}.hDerRec x'),
             (lag, 'laguerre.py', 'laguerre_seq', 'laguerreSeq', ['alpha', 'x'], None, '', f'{M}.lagRec alpha x'),
             (dic, 'dickson.py', 'dickson1_seq', 'dickson1Seq', ['alpha', 'x'], None, '', f'{M}.dickRec ({M7}.nat 2) alpha x'),
-            (dic, 'dickson.py', 'dickson2_seq', 'dickson2Seq', ['alpha', 'x'], None, '', f'{M}.dickRec ({M7}.nat 1) alpha x')]:
+            (dic, 'dickson.py', 'dickson2_seq', 'dickson2Seq', ['alpha', 'x'], None, '', f'{M}.dickRec ({M7}.nat 1) alpha x'),
+            (qp8, 'qpoly.py', 'Qbfs_seq', 'qbfsSeq', ['x'], None, '(sqrt : K → K) ', f'{M}.qbfsRec sqrt x')]:
         def build(mod=mod, py=py, lean=lean, ks=ks, tf=tf, xb=xb):
-            return translate_seq(get_def_inlined(mod, py), lean, ks, tuple_funcs=tf, extra_binders=xb)
+            kw = None
+            if py == 'Qbfs_seq':      # the auxiliary f, g, h are read as the model's functions (their bodies are C07 items), sqrt is a parameter
+                kw = {'intfuncs': {'g_qbfs': f'{M7}.qbfsGi sqrt', 'h_qbfs': f'{M7}.qbfsHi sqrt', 'f_qbfs': f'{M7}.qbfsFi sqrt'}, 'sqrt': 'sqrt'}
+            return translate_seq(get_def_inlined(mod, py), lean, ks, tuple_funcs=tf, extra_binders=xb, tr_kwargs=kw)
         g.item(py, f'prysm/polynomials/{rel}:{py}', (lambda mod=mod, py=py: get_def(mod, py)), build,
                f'def {lean} {xb}(ns : List Nat) ({" ".join(ks)} : K) : Option (List K) := {M}.sweep ({rec}) ns')
 
